@@ -297,11 +297,13 @@ Accounting(o) == o.after = RemoveAll(o.before, o.deleted, Len(o.before)) \o o.cr
 ErrReported(o) == o.hit => (o.err \/ o.nerrs > 0)
 
 \* BitBucket: "the maximum number of comments pint can create on a single pull request": of K classes at least
-\* min(K, max) are covered, pint never keeps more than max of its comments (plus the notice about skipped ones),
+\* min(K, max) are covered, pint never keeps more than max distinct comments of its own (plus the notice about skipped ones),
 \* and repeating a run changes nothing
 BBCovered(o) ==
   LET covered == {K \in Classes(o.reports) : \E p \in ClassMembers(o.reports, K) : \E k \in 1..Len(o.after) : CoversProblem(o.plat, p, o.var, o.after[k])}
-      own == {k \in 1..Len(o.after) : o.after[k].mine /\ o.after[k].path # ""} IN
+      \* distinct own comments on problems (twins that were already there stay: each equals a pending comment)
+      own == {[path |-> o.after[k].path, line |-> o.after[k].line, text |-> o.after[k].text] :
+                k \in {n \in 1..Len(o.after) : o.after[n].mine /\ o.after[n].path # ""}} IN
   /\ Cardinality(covered) >= (IF Cardinality(Classes(o.reports)) < o.max THEN Cardinality(Classes(o.reports)) ELSE o.max)
   /\ Cardinality(own) <= o.max
 BBIdempotent(o) == (o.prevSame /\ o.prevCreates >= 0) => (o.creates = <<>> /\ o.deleted = {})
